@@ -69,6 +69,7 @@ type TxSpec struct {
 	AcctHex string   `json:"ach,omitempty"` // apply: explicit miner account (e.g. a contract address)
 	Amount  string   `json:"am,omitempty"`
 	Omit    string   `json:"omit,omitempty"` // refund: "Amount" or "MinerId" is left out of the payload
+	NoPK    bool     `json:"nopk,omitempty"` // apply: the payload carries no public key (only the VRF key)
 	Prog    int      `json:"p,omitempty"`
 	Gas     uint64   `json:"g,omitempty"`
 	Value   string   `json:"v,omitempty"`
@@ -163,6 +164,9 @@ func (s TxSpec) Build() *types.Transaction {
 		switch s.K {
 		case "apply":
 			m.PublicKey = []byte{1, 2, 3, byte(s.Miner)}
+			if s.NoPK {
+				m.PublicKey = nil
+			}
 			m.VrfPublicKey = []byte{4, 5, 6, byte(s.Miner)}
 			if s.Acct > 0 {
 				m.Account = common.FromHex(Account(s.Acct - 1))
